@@ -33,13 +33,21 @@ DECL_HEADS = {'declare-const', 'declare-fun', 'define-fun', 'define-fun-rec',
               'declare-sort', 'define-sort', 'define-const'}
 
 
+DECL_ARITY = {'declare-const': 3, 'declare-fun': 4, 'define-fun': 5,
+              'define-fun-rec': 5, 'declare-sort': 3, 'define-sort': 4,
+              'define-const': 4}
+
+
 def declared_symbols(exprs):
     out = set()
     for e in exprs:
         if e.is_leaf() or not e.has_ident():
             continue
         h = e.get_ident().data
-        if h in DECL_HEADS and len(e) >= 2 and e[1].is_leaf():
+        # only commands of the right shape declare something (a partially
+        # reduced (define-fun f ((a S)) body) without its sort declares
+        # nothing, for ddSMT and for every solver)
+        if h in DECL_HEADS and len(e) == DECL_ARITY[h] and e[1].is_leaf():
             out.add(e[1].data)
         elif h == 'define-funs-rec' and len(e) >= 2 and not e[1].is_leaf():
             for d in e[1]:
